@@ -87,7 +87,8 @@ async fn tx(n: &mut c11::Node, stmts: Vec<String>) {
 /// case: backup <nops> { A k {id val} | B k {id val} | XA id | XB id | D } <dest 0..3> <keep 0|1> <readers>
 ///   A/B  a transaction on node A / node B upserting rows (id, 'v<val>');  XA/XB  a delete on A / B;
 ///   D    deliver B's pending changes to A
-///   dest 0 absent, 1 empty file, 2 the database of another agent (WAL, different content),
+///   dest 0 absent, 1 empty file, 2 the database of another agent (WAL, checkpointed, different content),
+///        4 node B's own database, 5 another agent's database with committed transactions still in its -wal file,
 ///        3 a plain rollback-journal database with a `tests` table
 pub fn backup(t: &mut Toks) -> String {
     let rt = tokio::runtime::Builder::new_multi_thread().worker_threads(4).enable_all().build().unwrap();
@@ -154,6 +155,7 @@ pub fn backup(t: &mut Toks) -> String {
         let dst = dst_dir.join("corrosion.db");
         let mut dst_site0 = String::new();
         let mut third = None;
+        let mut wal_bytes = 0u64;
         match dest_kind {
             0 => {}
             1 => { std::fs::File::create(&dst).unwrap(); }
@@ -170,6 +172,20 @@ pub fn backup(t: &mut Toks) -> String {
                     if s.exists() { std::fs::copy(&s, dst_dir.join(f)).unwrap(); }
                 }
                 let _ = cdb;
+                dst_site0 = site_state(&dst).0.iter().find(|(o, _)| *o == 0).map(|x| x.1.clone()).unwrap_or_default();
+                third = Some(c);
+            }
+            5 => {
+                // a LIVE node's database: committed transactions still sit in its -wal file (no
+                // checkpoint), as on any running agent; a restore must not let them come back
+                let mut c = c11::new_node().await;
+                tx(&mut c, (900..(900 + 40)).map(|i| format!("INSERT INTO tests (id, text) VALUES ({i}, 'old{i}')")).collect()).await;
+                tx(&mut c, (900..(900 + 10)).map(|i| format!("UPDATE tests SET text = 'older{i}' WHERE id = {i}")).collect()).await;
+                for f in ["corrosion.db", "corrosion.db-wal", "corrosion.db-shm"] {
+                    let s = c.kit.dir.path().join(f);
+                    if s.exists() { std::fs::copy(&s, dst_dir.join(f)).unwrap(); }
+                }
+                wal_bytes = std::fs::metadata(dst_dir.join("corrosion.db-wal")).map(|m| m.len()).unwrap_or(0);
                 dst_site0 = site_state(&dst).0.iter().find(|(o, _)| *o == 0).map(|x| x.1.clone()).unwrap_or_default();
                 third = Some(c);
             }
@@ -225,7 +241,7 @@ pub fn backup(t: &mut Toks) -> String {
         std::fs::write(&cfg, format!("[db]\npath = \"{}\"\n\n[gossip]\naddr = \"127.0.0.1:0\"\n\n[api]\naddr = \"127.0.0.1:0\"\n\n[admin]\npath = \"{}\"\n",
             dst.display(), work.path().join("no-admin.sock").display())).unwrap();
         let mut args = vec!["--config".to_string(), cfg.display().to_string(), "restore".to_string(), bak.display().to_string()];
-        let keep_here = keep && (dest_kind == 2 || dest_kind == 4);
+        let keep_here = keep && (dest_kind == 2 || dest_kind == 4 || dest_kind == 5);
         if keep_here { args.push("--self-actor-id".into()); }
         let o = Command::new(cli()).args(&args).output().unwrap();
         stop.store(true, Ordering::SeqCst);
@@ -234,7 +250,7 @@ pub fn backup(t: &mut Toks) -> String {
             let (seen, errs, after_same) = h.join().unwrap();
             rd.push(format!("seen={} errs={} after={}", seen.join("+"), if errs > 0 { 1 } else { 0 }, after_same));
         }
-        outs.push(format!("restore rc={} keep={}", o.status.code().unwrap_or(-1), if keep_here { 1 } else { 0 }));
+        outs.push(format!("restore rc={} keep={} walbytes={}", o.status.code().unwrap_or(-1), if keep_here { 1 } else { 0 }, wal_bytes));
         if !o.status.success() {
             outs.push(format!("stderr={}", String::from_utf8_lossy(&o.stderr).replace(' ', "_").replace('\n', "|")));
         }
